@@ -41,6 +41,11 @@ Definition op_eqb (a b : op) : bool :=
   | _, _ => false
   end.
 
+(* failed system calls have no effect; which calls fail, and whether a doomed call is attempted at all, is not
+   compared (os.Rename, e.g., does not even try when the destination is a directory) *)
+Definition effectful (ops : list op) : list op :=
+  filter (fun o => match o with Fail _ => false | _ => true end) ops.
+
 Definition chunk_sizes (ops : list op) : list nat :=
   flat_map (fun o => match o with WriteChunk _ b => [String.length b] | _ => [] end) ops.
 
@@ -70,7 +75,7 @@ Definition corr10 (c : case10) : bool :=
   | CTrace w rnd limit rfail ops =>
       let f := fault_of (c_new w) limit rfail in
       let p := params w rnd (chunk_sizes ops) f in
-      list_eqb op_eqb ops (writer_ops p) &&
+      list_eqb op_eqb (effectful ops) (effectful (writer_ops p)) &&
       entries_eqb (listing (run ops (st0_of w))) (sort_entries (c_l1 w)) &&
       Nat.eqb (c_ret w) (ret_of f) &&
       scan_matches (c_l0 w) (c_s0 w) && scan_matches (c_l1 w) (c_s1 w)
